@@ -791,3 +791,76 @@ Proof. vm_compute. repeat split; discriminate. Qed.
 Example negative_result_panics :
   update_panics (init 490000 (24 * ms_hour) true) (ex_e (-1)) = true.
 Proof. reflexivity. Qed.
+
+(** * Time units and series lengths *)
+
+Lemma load_units_length s : 1 <= lim s -> Z.of_nat (length (load_units s)) = lim s.
+Proof.
+  intros HL. unfold load_units, window_ids.
+  rewrite app_length, !map_length, zseq_length. cbn [length]. lia.
+Qed.
+
+(** The switch to days: more than 7 whole days of limit. *)
+Lemma time_units s : 1 <= lim s -> d_days (get_data s) = (7 <? lim s / 24).
+Proof.
+  intros HL. unfold get_data. cbn [d_days]. rewrite load_units_length by assumption. reflexivity.
+Qed.
+
+Lemma chunk_sums_length n l : length (chunk_sums n l) = n.
+Proof. revert l; induction n; intros l; cbn [chunk_sums length]; auto. Qed.
+
+Lemma daily_length s :
+  1 <= lim s -> d_days (get_data s) = true ->
+  Z.of_nat (length (d_dns (get_data s))) = lim s / 24.
+Proof.
+  intros HL. unfold get_data. cbn [d_days d_dns]. intros E. rewrite E. cbn [series].
+  rewrite chunk_sums_length, load_units_length by assumption. lia.
+Qed.
+
+(** * Restart in a later hour reads like the hourly flush *)
+
+Lemma restart_later_hour g id :
+  Inv g -> cur_id (g_st g) < id < max_id ->
+  load_units (restart (g_st g) id) = load_units (flush (g_st g) id) /\
+  cur_id (restart (g_st g) id) = cur_id (flush (g_st g) id).
+Proof.
+  intros HI Hid. destruct (inv_bounds g HI) as [Hc HL]. destruct HI.
+  unfold min_id, max_id in *.
+  unfold flush. destruct (Z.eqb_spec (lim (g_st g)) 0) as [E0|_]; [lia|].
+  destruct (Z.eqb_spec (cur_id (g_st g)) id) as [E1|_]; [lia|]. cbn [orb].
+  split; [|reflexivity].
+  unfold load_units. f_equal.
+  - assert (W : window_ids (restart (g_st g) id) =
+                window_ids (with_cur (g_st g) id empty_unit
+                  (db_del (u32 (id - lim (g_st g)))
+                     (db_put (cur_id (g_st g)) (cur (g_st g)) (db (g_st g)))))) by reflexivity.
+    rewrite W. rewrite window_ids_nowrap by (unfold min_id, max_id, lim in *; cbn; lia).
+    apply map_ext_in. intros i Hi. apply zseq_In in Hi. cbn [cur_id with_cur] in Hi.
+    change (lim (with_cur (g_st g) id empty_unit _)) with (lim (g_st g)) in Hi.
+    unfold stored, restart, open_db, close_db. cbn [db with_cur]. fold (lim (g_st g)).
+    rewrite !u32_small by lia. rewrite db_get_del_below, db_get_del.
+    destruct (Z.leb_spec (id - lim (g_st g) - 1) i); [|lia].
+    destruct (Z.eqb_spec i (id - lim (g_st g))); [lia|reflexivity].
+  - f_equal. unfold restart, open_db, close_db. cbn [cur with_cur]. fold (lim (g_st g)).
+    rewrite u32_small by lia. rewrite db_get_del_below, db_get_put.
+    destruct (Z.leb_spec (id - lim (g_st g) - 1) id); [|lia].
+    destruct (Z.eqb_spec id (cur_id (g_st g))); [lia|].
+    destruct (db_get id (db (g_st g))) eqn:G; [|reflexivity].
+    apply i_dbtop0 in G. lia.
+Qed.
+
+(** Daily series strictly below the total: 8 days of limit, five updates in
+    the first hours of the window (which the daily series skips), three in
+    the current hour. *)
+Definition ex_hist3 : list op :=
+  ex_all5 ++ [OFlush 490191; OUpdate (ex_e 1); OUpdate (ex_e 2); OUpdate (ex_e 2)].
+
+Example daily_premises :
+  wf_hist 490000 ex_hist3 /\
+  let d := get_data (run (init 490000 (192 * ms_hour) true) ex_hist3) in
+  d_days d = true /\ zsum (d_dns d) = 3 /\ d_num d = 8 /\ length (d_dns d) = 8%nat /\
+  zsum (d_blocked d) = 2 /\ d_num_f d = 3.
+Proof.
+  split; [cbn [wf_hist op_id ex_hist3 ex_all5 app]; unfold max_id; lia|].
+  vm_compute. repeat split.
+Qed.
